@@ -1,5 +1,319 @@
 package sym
 
-type rxProg struct{}
+import (
+	"go/types"
+	"regexp/syntax"
+	"sync"
+	"unicode"
 
-func registerRegexp() {}
+	"golang.org/x/tools/go/ssa"
+
+	"verif/engine/smt"
+)
+
+// Regular expressions: the pattern (a constant in the SSA, so edits to the
+// scanner's constants are seen) is compiled with the real regexp/syntax to a
+// syntax.Prog; matching runs on a backtracking VM over that program, in the
+// program's alternation priority (= Go's leftmost-first semantics), forking
+// lazily on rune-class tests of symbolic runes.
+
+type rxProg struct {
+	pattern string
+	prog    *syntax.Prog
+	ncap    int
+}
+
+var rxCache sync.Map
+
+func compileRx(pattern string) (*rxProg, error) {
+	if v, ok := rxCache.Load(pattern); ok {
+		return v.(*rxProg), nil
+	}
+	re, err := syntax.Parse(pattern, syntax.Perl)
+	if err != nil {
+		return nil, err
+	}
+	ncap := re.MaxCap()
+	re = re.Simplify()
+	prog, err := syntax.Compile(re)
+	if err != nil {
+		return nil, err
+	}
+	p := &rxProg{pattern: pattern, prog: prog, ncap: ncap}
+	rxCache.Store(pattern, p)
+	return p, nil
+}
+
+func registerRegexp() {
+	intrinsics["regexp.MustCompile"] = func(ex *Exec, c *frame, fn *ssa.Function, a []Value) Value {
+		pat, ok := a[0].(string)
+		if !ok {
+			ex.abort("regexp.MustCompile with a non-constant pattern")
+		}
+		p, err := compileRx(pat)
+		if err != nil {
+			panic(&goPanic{V: Iface{T: types.Typ[types.String], V: "regexp: Compile(" + pat + "): " + err.Error()}, Msg: "regexp: Compile: " + err.Error()})
+		}
+		var cell Value = p
+		return &cell
+	}
+	intrinsics["(*regexp.Regexp).FindStringSubmatch"] = func(ex *Exec, c *frame, fn *ssa.Function, a []Value) Value {
+		p := (*(a[0].(*Value))).(*rxProg)
+		return ex.rxFindSubmatch(p, a[1])
+	}
+	intrinsics["(*regexp.Regexp).MatchString"] = func(ex *Exec, c *frame, fn *ssa.Function, a []Value) Value {
+		p := (*(a[0].(*Value))).(*rxProg)
+		return smt.BoolC(ex.rxFindSubmatch(p, a[1]).(Slice) != nil)
+	}
+	intrinsics["(*regexp.Regexp).String"] = func(ex *Exec, c *frame, fn *ssa.Function, a []Value) Value {
+		return (*(a[0].(*Value))).(*rxProg).pattern
+	}
+}
+
+type rxRun struct {
+	ex     *Exec
+	p      *rxProg
+	b      []*smt.Term
+	caps   []int
+	failed map[[2]int]bool
+	runes  map[int]rxRune
+	steps  int
+}
+
+type rxRune struct {
+	r *smt.Term
+	n int
+}
+
+func (r *rxRun) runeAt(pos int) (*smt.Term, int) {
+	if v, ok := r.runes[pos]; ok {
+		return v.r, v.n
+	}
+	t, n := r.ex.decodeRuneAt(r.b, pos)
+	r.runes[pos] = rxRune{t, n}
+	return t, n
+}
+
+// inClass: rune term t matches instruction i (as syntax.Inst.MatchRune).
+func (r *rxRun) inClass(i *syntax.Inst, t *smt.Term) *smt.Term {
+	c := func(v rune) *smt.Term { return smt.BVC(32, uint64(uint32(v))) }
+	switch i.Op {
+	case syntax.InstRuneAny:
+		return smt.True
+	case syntax.InstRuneAnyNotNL:
+		return smt.Not(smt.Eq(t, c('\n')))
+	}
+	rs := i.Rune
+	if len(rs) == 1 {
+		res := smt.Eq(t, c(rs[0]))
+		if syntax.Flags(i.Arg)&syntax.FoldCase != 0 {
+			for r1 := unicode.SimpleFold(rs[0]); r1 != rs[0]; r1 = unicode.SimpleFold(r1) {
+				res = smt.Or(res, smt.Eq(t, c(r1)))
+			}
+		}
+		return res
+	}
+	res := smt.False
+	for k := 0; k+1 < len(rs); k += 2 {
+		lo, hi := rs[k], rs[k+1]
+		var in *smt.Term
+		if lo == hi {
+			in = smt.Eq(t, c(lo))
+		} else {
+			in = smt.And(smt.SLe(c(lo), t), smt.SLe(t, c(hi)))
+		}
+		res = smt.Or(res, in)
+	}
+	return res
+}
+
+func (r *rxRun) isWordAt(pos int) *smt.Term {
+	if pos < 0 || pos >= len(r.b) {
+		return smt.False
+	}
+	b := r.b[pos]
+	c := func(v byte) *smt.Term { return smt.BVC(8, uint64(v)) }
+	in := func(lo, hi byte) *smt.Term { return smt.And(smt.ULe(c(lo), b), smt.ULe(b, c(hi))) }
+	return smt.Or(smt.Or(in('a', 'z'), in('A', 'Z')), smt.Or(in('0', '9'), smt.Eq(b, c('_'))))
+}
+
+func (r *rxRun) emptyOK(op syntax.EmptyOp, pos int) bool {
+	nl := smt.BVC(8, '\n')
+	if op&syntax.EmptyBeginText != 0 && pos != 0 {
+		return false
+	}
+	if op&syntax.EmptyEndText != 0 && pos != len(r.b) {
+		return false
+	}
+	if op&syntax.EmptyBeginLine != 0 && pos != 0 {
+		if !r.ex.P.branch(smt.Eq(r.b[pos-1], nl)) {
+			return false
+		}
+	}
+	if op&syntax.EmptyEndLine != 0 && pos != len(r.b) {
+		if !r.ex.P.branch(smt.Eq(r.b[pos], nl)) {
+			return false
+		}
+	}
+	if op&(syntax.EmptyWordBoundary|syntax.EmptyNoWordBoundary) != 0 {
+		boundary := smt.Not(smt.Eq(r.isWordAt(pos-1), r.isWordAt(pos)))
+		isB := r.ex.P.branch(boundary)
+		if op&syntax.EmptyWordBoundary != 0 && !isB {
+			return false
+		}
+		if op&syntax.EmptyNoWordBoundary != 0 && isB {
+			return false
+		}
+	}
+	return true
+}
+
+func (r *rxRun) match(pc, pos int) bool {
+	r.steps++
+	if r.steps > 200000 {
+		r.ex.abort("regular expression VM step limit")
+	}
+	key := [2]int{pc, pos}
+	if r.failed[key] {
+		return false
+	}
+	i := &r.p.prog.Inst[pc]
+	ok := false
+	switch i.Op {
+	case syntax.InstFail:
+	case syntax.InstMatch:
+		return true
+	case syntax.InstNop:
+		ok = r.match(int(i.Out), pos)
+	case syntax.InstAlt, syntax.InstAltMatch:
+		ok = r.match(int(i.Out), pos) || r.match(int(i.Arg), pos)
+	case syntax.InstCapture:
+		k := int(i.Arg)
+		if k < len(r.caps) {
+			old := r.caps[k]
+			r.caps[k] = pos
+			ok = r.match(int(i.Out), pos)
+			if !ok {
+				r.caps[k] = old
+			}
+			return ok // captures make failure context dependent only through restoration; still safe to memo below
+		}
+		ok = r.match(int(i.Out), pos)
+	case syntax.InstEmptyWidth:
+		if r.emptyOK(syntax.EmptyOp(i.Arg), pos) {
+			ok = r.match(int(i.Out), pos)
+		}
+	case syntax.InstRune, syntax.InstRune1, syntax.InstRuneAny, syntax.InstRuneAnyNotNL:
+		if pos < len(r.b) {
+			t, n := r.runeAt(pos)
+			if r.ex.P.branch(r.inClass(i, t)) {
+				ok = r.match(int(i.Out), pos+n)
+			}
+		}
+	}
+	if !ok {
+		r.failed[key] = true
+	}
+	return ok
+}
+
+// rxFindSubmatch implements FindStringSubmatch: nil when there is no match.
+func (ex *Exec) rxFindSubmatch(p *rxProg, s Value) Value {
+	if sv, ok := s.(*SymStr); ok {
+		ex.needClear(sv)
+	}
+	b := strBytes(s)
+	anchored := p.prog.StartCond()&syntax.EmptyBeginText != 0
+	for start := 0; start <= len(b); start++ {
+		r := &rxRun{ex: ex, p: p, b: b, caps: make([]int, 2*(p.ncap+1)), failed: map[[2]int]bool{}, runes: map[int]rxRune{}}
+		for k := range r.caps {
+			r.caps[k] = -1
+		}
+		r.caps[0] = start
+		if r.matchFrom(start) {
+			out := make(Slice, p.ncap+1)
+			for g := 0; g <= p.ncap; g++ {
+				lo, hi := r.caps[2*g], r.caps[2*g+1]
+				if lo < 0 || hi < 0 {
+					out[g] = ""
+				} else {
+					out[g] = mkStr(b[lo:hi])
+				}
+			}
+			return out
+		}
+		if anchored {
+			break
+		}
+		// advance by one rune
+		if start < len(b) {
+			_, n := ex.decodeRuneAt(b, start)
+			start += n - 1
+		}
+	}
+	return Slice(nil)
+}
+
+func (r *rxRun) matchFrom(start int) bool {
+	// find the end position: run the program, recording where Match was reached
+	end := -1
+	var run func(pc, pos int) bool
+	_ = run
+	// wrap InstMatch to record the position: do a dedicated traversal
+	ok := r.matchEnd(r.p.prog.Start, start, &end)
+	if ok {
+		r.caps[1] = end
+	}
+	return ok
+}
+
+// matchEnd is match() that reports the position at which InstMatch was reached.
+func (r *rxRun) matchEnd(pc, pos int, end *int) bool {
+	r.steps++
+	if r.steps > 200000 {
+		r.ex.abort("regular expression VM step limit")
+	}
+	key := [2]int{pc, pos}
+	if r.failed[key] {
+		return false
+	}
+	i := &r.p.prog.Inst[pc]
+	ok := false
+	switch i.Op {
+	case syntax.InstFail:
+	case syntax.InstMatch:
+		*end = pos
+		return true
+	case syntax.InstNop:
+		ok = r.matchEnd(int(i.Out), pos, end)
+	case syntax.InstAlt, syntax.InstAltMatch:
+		ok = r.matchEnd(int(i.Out), pos, end) || r.matchEnd(int(i.Arg), pos, end)
+	case syntax.InstCapture:
+		k := int(i.Arg)
+		if k < len(r.caps) {
+			old := r.caps[k]
+			r.caps[k] = pos
+			ok = r.matchEnd(int(i.Out), pos, end)
+			if !ok {
+				r.caps[k] = old
+			}
+		} else {
+			ok = r.matchEnd(int(i.Out), pos, end)
+		}
+	case syntax.InstEmptyWidth:
+		if r.emptyOK(syntax.EmptyOp(i.Arg), pos) {
+			ok = r.matchEnd(int(i.Out), pos, end)
+		}
+	case syntax.InstRune, syntax.InstRune1, syntax.InstRuneAny, syntax.InstRuneAnyNotNL:
+		if pos < len(r.b) {
+			t, n := r.runeAt(pos)
+			if r.ex.P.branch(r.inClass(i, t)) {
+				ok = r.matchEnd(int(i.Out), pos+n, end)
+			}
+		}
+	}
+	if !ok {
+		r.failed[key] = true
+	}
+	return ok
+}
